@@ -103,10 +103,17 @@ Fixpoint ac_step (nv : N) (l : list (list itm)) : option (list (list itm) * N) :
     end
   end.
 
+Definition strip (l : list (list itm)) : func := map (map fst) l.
+
+(* the step is only applied while the fresh-variable counter is above every variable of the function (always the case:
+   the counter starts above all variables and grows by the number of variables each step introduces) *)
 Fixpoint ac_iter (fuel : nat) (nv : N) (l : list (list itm)) : list (list itm) :=
   match fuel with
   | O => l
-  | Datatypes.S n => match ac_step nv l with Some (l', k) => ac_iter n (nv + k)%N l' | None => l end
+  | Datatypes.S n =>
+    if func_below nv (strip l) then
+      match ac_step nv l with Some (l', k) => ac_iter n (nv + k)%N l' | None => l end
+    else l
   end.
 
 Fixpoint zip_msgs (blk : block) (ms : list N) : list itm :=
@@ -119,8 +126,6 @@ Fixpoint zip_func (f : func) (M : list (list N)) : list (list itm) :=
   | [] => []
   | b :: t => match M with m :: mt => zip_msgs b m :: zip_func t mt | [] => zip_msgs b [] :: zip_func t [] end
   end.
-
-Definition strip (l : list (list itm)) : func := map (map fst) l.
 
 Definition ac_pass (f : func) (M : list (list N)) (nv : N) : func :=
   strip (ac_iter (List.length (List.concat f)) nv (zip_func f M)).
